@@ -27,14 +27,14 @@ theorem spliceWrite_plain (cfg : Cfg) (w : World) (v ty : Nat) (d : VecSt) (vals
     (hcap : d.len + written + vals.length ≤ d.cap) :
     ∃ d', spliceWrite cfg v ty vals.length vals written w =
         ({ w with vecs := w.vecs.set v d' }, .ok (written + vals.length, [])) ∧
-      d'.len = d.len ∧ d'.cap = d.cap ∧ d'.live = true ∧ d'.ty = d.ty ∧ d'.hasDrop = d.hasDrop ∧
+      d'.len = d.len ∧ d'.cap = d.cap ∧ d'.live = true ∧ d'.ty = d.ty ∧ d'.hasDrop = d.hasDrop ∧ d'.bk = d.bk ∧
       d.cells.length ≤ d'.cells.length ∧ d'.cells.length ≤ max d.cells.length (d.len + written + vals.length) ∧
       (∀ j, j < d.len + written → d'.cells.get j = d.cells.get j) ∧
       (∀ j, j < vals.length → d'.cells.get (d.len + written + j) = .val (ids.getD j 0)) ∧
       (∀ j, d.len + written + vals.length ≤ j → d'.cells.get j = d.cells.get j) := by
   induction hpl generalizing w d written with
   | nil =>
-    refine ⟨d, ?_, rfl, rfl, hl, rfl, rfl, Nat.le_refl _, Nat.le_max_left _ _, fun _ _ => rfl, fun j hj => absurd hj (by simp), fun _ _ => rfl⟩
+    refine ⟨d, ?_, rfl, rfl, hl, rfl, rfl, rfl, Nat.le_refl _, Nat.le_max_left _ _, fun _ _ => rfl, fun j hj => absurd hj (by simp), fun _ _ => rfl⟩
     have : w.vecs.set v d = w.vecs := by
       apply List.ext_getElem?; intro m
       by_cases hm : v = m
@@ -49,10 +49,10 @@ theorem spliceWrite_plain (cfg : Cfg) (w : World) (v ty : Nat) (d : VecSt) (vals
     have hb : d.len + written < d.cap := by omega
     let d1 : VecSt := { d with cells := (d.cells.ensure (d.len + written + 1)).set (d.len + written) (.val id), live := true }
     let w1 : World := { w with vecs := w.vecs.set v d1 }
-    obtain ⟨d', he, h1, h2, h3, h3a, h3b, h4, h4u, h5, h6, h7⟩ := ih (w := w1) (d := d1) (written := written + 1)
+    obtain ⟨d', he, h1, h2, h3, h3a, h3b, h3c, h4, h4u, h5, h6, h7⟩ := ih (w := w1) (d := d1) (written := written + 1)
       (by simp [w1, hlt]) rfl (by simp [w1, hf]) (by simp [d1]; omega)
     refine ⟨d', ?_, by simpa [d1] using h1, by simpa [d1] using h2, h3, by simpa [d1] using h3a,
-      by simpa [d1] using h3b, ?_, ?_, ?_, ?_, ?_⟩
+      by simpa [d1] using h3b, by simpa [d1] using h3c, ?_, ?_, ?_, ?_, ?_⟩
     · have hstep : spliceWrite cfg v ty (vs.length + 1) (.wrapper id ty :: vs) written w
           = spliceWrite cfg v ty vs.length vs (written + 1) w1 := by
         simp [spliceWrite, WM.onUnwind, tick, hf, valTy, getVec, hlt, hd, hl, valMoveInto, World.writeCell,
@@ -94,10 +94,10 @@ theorem spliceWrite_plain (cfg : Cfg) (w : World) (v ty : Nat) (d : VecSt) (vals
     have hb : d.len + written < d.cap := by omega
     let d1 : VecSt := { d with cells := (d.cells.ensure (d.len + written + 1)).set (d.len + written) (.val id), live := true }
     let w1 : World := { w with vecs := w.vecs.set v d1 }
-    obtain ⟨d', he, h1, h2, h3, h3a, h3b, h4, h4u, h5, h6, h7⟩ := ih (w := w1) (d := d1) (written := written + 1)
+    obtain ⟨d', he, h1, h2, h3, h3a, h3b, h3c, h4, h4u, h5, h6, h7⟩ := ih (w := w1) (d := d1) (written := written + 1)
       (by simp [w1, hlt]) rfl (by simp [w1, hf]) (by simp [d1]; omega)
     refine ⟨d', ?_, by simpa [d1] using h1, by simpa [d1] using h2, h3, by simpa [d1] using h3a,
-      by simpa [d1] using h3b, ?_, ?_, ?_, ?_, ?_⟩
+      by simpa [d1] using h3b, by simpa [d1] using h3c, ?_, ?_, ?_, ?_, ?_⟩
     · have hstep : spliceWrite cfg v ty (vs.length + 1) (.raw id ty :: vs) written w
           = spliceWrite cfg v ty vs.length vs (written + 1) w1 := by
         simp [spliceWrite, WM.onUnwind, tick, hf, valTy, getVec, hlt, hd, hl, valMoveInto, World.writeCell,
@@ -156,6 +156,7 @@ theorem spliceDrop_exec (cfg : Cfg) (w : World) (it : RangeIt) (d d1 : VecSt) (e
               { w with vecs := w.vecs.set it.v d1, ev := es.reverse ++ w.ev } with
             vecs := w.vecs.set it.v { d3 with len := it.start + vals.length + (it.origLen - it.end0) } }, .ok ()) ∧
       it.start + vals.length + (it.origLen - it.end0) ≤ d3.cells.length ∧ d3.cells.length ≤ d3.cap ∧ d3.live = true ∧
+      d3.cap = d1.cap ∧ d3.ty = d.ty ∧ d3.bk = d1.bk ∧
       (∀ j, j < it.start → d3.cells.get j = d.cells.get j) ∧
       (∀ j, j < vals.length → d3.cells.get (it.start + j) = .val (ids.getD j 0)) ∧
       (∀ j, j < it.origLen - it.end0 → d3.cells.get (it.start + vals.length + j) = d.cells.get (it.end0 + j)) := by
@@ -184,11 +185,11 @@ theorem spliceDrop_exec (cfg : Cfg) (w : World) (it : RangeIt) (d d1 : VecSt) (e
   let w3 : World := w2.upd it.v d2
   have hv3 : w3.vecs[it.v]? = some d2 := by simp [w3, w2, w1, hlt]
   have hpl2 : PlainList vals ids d2.ty := by simpa [d2, hty1] using hpl
-  obtain ⟨d3, hw3, hl3, hcap3, hlive3, _, _, hlen3, hlenu3, hpre3, hmid3, hpost3⟩ :=
+  obtain ⟨d3, hw3, hl3, hcap3, hlive3, hty3, _, hbk3, hlen3, hlenu3, hpre3, hmid3, hpost3⟩ :=
     spliceWrite_plain cfg w3 it.v d2.ty d2 vals ids 0 hpl2 hv3 hlive1 (by simpa [w3, w2, w1] using hf)
       (by simp [d2]; omega)
   have hlt3 : it.v < w3.vecs.length := by simp [w3, w2, w1, hlt]
-  refine ⟨d3, ?_, ?_, ?_, hlive3, ?_, ?_, ?_⟩
+  refine ⟨d3, ?_, ?_, ?_, hlive3, by rw [hcap3], by rw [hty3]; simp [d2, hty1], by rw [hbk3], ?_, ?_, ?_⟩
   · have hadd1 : checkedAdd it.start vals.length = .ok (it.start + vals.length) := by simp [checkedAdd]; omega
     have hadd2 : checkedAdd (it.start + vals.length) (it.origLen - it.end0) = .ok (it.start + vals.length + (it.origLen - it.end0)) := by
       simp [checkedAdd]; omega
@@ -230,5 +231,64 @@ theorem spliceDrop_exec (cfg : Cfg) (w : World) (it : RangeIt) (d d1 : VecSt) (e
     simp only [d2]
     rw [memmove_get _ _ _ _ _ (by simp; omega) (by simp; omega), if_pos (by omega), ensure_get, hcells]
     congr 1; omega
+
+/-- **`Splice::drop`**: whatever was consumed from either end, dropping a splice iterator whose
+replacement consists of `ids` (plain values of the vector's type, honest `len()`, room reservable) leaves
+`take start ++ replacement ++ drop end` of the original elements, destroys exactly the elements that were
+not yielded, and changes nothing else. -/
+theorem spliceDrop_replaces (cfg : Cfg) (w : World) (it : RangeIt) (d d1 : VecSt) (es : List Event)
+    (vals : List Val) (ids : List Nat) (hpl : PlainList vals ids d.ty)
+    (hv : w.vecs[it.v]? = some d) (hl : d.live = true) (hf : w.fault = none)
+    (h0 : d.len = it.start) (h1 : it.start ≤ it.index) (h2 : it.index ≤ it.end_) (h3 : it.end_ ≤ it.end0)
+    (h4 : it.end0 ≤ it.origLen) (h5 : it.origLen ≤ d.cells.length) (h6 : d.cells.length ≤ d.cap)
+    (hsmall : it.start + vals.length + (it.origLen - it.end0) ≤ USIZE_MAX)
+    (hres : d.reserve (it.start + vals.length + (it.origLen - it.end0) - it.start) = .ok (d1, es))
+    (hinit : d.InitRange it.index (it.end_ - it.index)) :
+    let r := spliceDrop cfg it vals vals.length w
+    let orig := d.cells.take it.origLen
+    r.2 = .ok () ∧
+      r.1.vis it.v = orig.take it.start ++ ids.map Cell.val ++ orig.drop it.end0 ∧
+      (∀ u, u ≠ it.v → r.1.vis u = w.vis u) ∧
+      r.1.dropLog = (d.idsRange it.index (it.end_ - it.index)).reverse ++ w.dropLog ∧
+      r.1.held = w.held ∧ r.1.created = w.created := by
+  have hlt : it.v < w.vecs.length := (List.getElem?_eq_some_iff.mp hv).1
+  have hidl := hpl.length_eq
+  obtain ⟨d3, he, hlen, _, _, _, _, _, hpre, hmid, hpost⟩ :=
+    spliceDrop_exec cfg w it d d1 es vals ids hpl hv hl hf h0 h1 h2 h3 h4 h5 h6 hsmall hres hinit
+  intro r orig
+  rw [show r = _ from he]
+  refine ⟨rfl, ?_, ?_, ?_, ?_, ?_⟩
+  · simp only [World.vis, List.getElem?_set_self hlt, VecSt.abs]
+    apply take_ext _ _ _ (by simp [orig]; omega) hlen
+    intro k hk
+    simp only [List.getElem?_append, List.length_take, List.length_map, List.getElem?_take, List.getElem?_map,
+      List.getElem?_drop, orig, List.length_append]
+    by_cases hk1 : k < it.start
+    · have hk' : k < d.cells.length := by omega
+      rw [hpre k hk1]
+      simp [hk1, Mem.get_eq, show min it.start (min it.origLen d.cells.length) = it.start by omega,
+        show k < it.origLen by omega, show k < it.start + ids.length by omega]
+    · by_cases hk2 : k < it.start + vals.length
+      · have := hmid (k - it.start) (by omega)
+        rw [show it.start + (k - it.start) = k by omega] at this
+        rw [this]
+        have hki : k - it.start < ids.length := by omega
+        simp [hk1, show min it.start (min it.origLen d.cells.length) = it.start by omega, hki, hidl,
+          show k < it.start + vals.length by omega, List.getD_eq_getElem?_getD, List.getElem?_eq_getElem hki]
+      · have := hpost (k - (it.start + vals.length)) (by omega)
+        rw [show it.start + vals.length + (k - (it.start + vals.length)) = k by omega] at this
+        rw [this]
+        have e1 : min it.start (min it.origLen d.cells.length) = it.start := by omega
+        have hk3 : ¬ k < it.start + ids.length := by omega
+        have hk4 : ¬ k < it.start + vals.length := hk2
+        simp only [e1, hk1, if_false, hidl, hk4, Mem.get_eq]
+        have e2 : it.end0 + (k - it.start - vals.length) < it.origLen := by omega
+        simp [e2, show it.end0 + (k - (it.start + vals.length)) = it.end0 + (k - it.start - vals.length) by omega]
+  · intro u hu
+    simp [World.vis, List.getElem?_set, Ne.symm hu]
+  · simp [World.logDrops_dropLog]
+  · simp
+  · simp
+
 
 end AnyVec
